@@ -38,6 +38,7 @@ type OpResult struct {
 	Ev       *Ev      `json:"ev,omitempty"`   // delivered event
 	StreamErr string  `json:"serr,omitempty"` // class of stream.Err() after a false Next
 	Wrote    bool     `json:"w,omitempty"`    // the call changed its transaction
+	Start    string   `json:"start,omitempty"` // watch: the start position actually used ("T.I" of the token / time)
 }
 
 // Ev summarises a change event.
@@ -109,6 +110,7 @@ type World struct {
 	stale   map[int]*lungo.Transaction // finished handles (for the misuse op estale)
 	History []HRec
 	seq     int
+	Old     []*Ev // oplog before the scenario (targets of the hand-made start positions old:<k>, oldtime:<k>)
 }
 
 // DB and Coll are the default namespace of the scenarios.
@@ -282,6 +284,10 @@ func (w *World) Do(a *actor, idx int, op Op) {
 			// the model has one handle per actor: a second locked Begin is not expressible
 			info.Call = "none"
 			op.Kind = "skip"
+		}
+		if op.Kind == "watch" && w.watchSkipped(op) {
+			// the start position does not exist (nothing delivered on the source slot): no call is made
+			info.Call = "none"
 		}
 		c.noteCall(a.id, info)
 		res := w.call(ctx, a, idx, rep, op, false)
